@@ -41,6 +41,7 @@ PIE_ALSO = {
     'C16': (),
 }
 FS_BOUNDS = {'quick': ['fs'], 'thorough': ['fs']}
+MAP_BOUNDS = {'quick': ['map', '--cases', '20000', '--len', '14'], 'thorough': ['map', '--cases', '400000', '--len', '24']}
 GRAPH_BOUNDS = {'quick': ['graph', '--k', '3', '--l', '4', '--random', '4000', '--len', '14'],
                 'thorough': ['graph', '--k', '4', '--l', '4', '--random', '60000', '--len', '18']}
 
@@ -66,9 +67,9 @@ def run(here, repo, pid, names, tier, seed):
     if binp is None:
         out['undecided'].append('bounded stand-in does not build against the current tree: ' + err); return out
     for name in names:
-        if name not in ('graph', 'pie', 'fs'): continue
+        if name not in ('graph', 'pie', 'fs', 'map'): continue
         t0 = time.time()
-        bounds = {'graph': GRAPH_BOUNDS, 'pie': PIE_BOUNDS, 'fs': FS_BOUNDS}[name]
+        bounds = {'graph': GRAPH_BOUNDS, 'pie': PIE_BOUNDS, 'fs': FS_BOUNDS, 'map': MAP_BOUNDS}[name]
         args = bounds['thorough' if tier == 'thorough' else 'quick'] + ['--seed', str(seed or 1)]
         try:
             rc, recs, err = _run(binp, args)
@@ -82,6 +83,8 @@ def run(here, repo, pid, names, tier, seed):
                                                  if name == 'graph' else
                                                  'the assumed std::fs/io/sha2 shim contracts of unit fs and every construct outside them: the real checkers on real temporary files with explicitly set modification times, all ordered pairs of 20 path states (absent, files around and beyond the read buffer, directories), three stamp routes, read-through after stamp_reader, Resource::write'
                                                  if name == 'fs' else
+                                                 'the assumed HashMap/Any/TypeId shim contracts of unit map and every construct outside them: random operation sequences over two key types with different value types (reads, writers, entry API, direct map access, checker routes) interleaved with typed state accesses of matching and non-matching types, on the real crate through Pie::resource_state_mut, against a one-slot-per-resource-type model; both slots observed after every operation'
+                                                 if name == 'map' else
                                                  'the functions not under contract (bottom-up context, Tracking bodies, ResourceDependency::check/is_consistent, SessionInternal::require, trait-object identity) '
                                                  'and the composition of the per-function contracts over whole builds; random well-formed task programs and histories on the real crate, '
                                                  'checked against a from-scratch build on a fresh instance and against a model of the recorded dependencies rebuilt from the event stream')}
@@ -106,9 +109,9 @@ def search_counterexample(here, repo, pid, obligation):
     """When a Verus obligation fails: look for a concrete failing operation sequence / build history on the real crate."""
     binp, err = _build(here, repo)
     if binp is None: return None
-    if obligation.split('.')[0] == 'C13':
+    if obligation.split('.')[0] in ('C13', 'C14'):
         try:
-            rc, recs, err = _run(binp, ['fs'], timeout=900)
+            rc, recs, err = _run(binp, ['fs'] if obligation.startswith('C13') else MAP_BOUNDS['quick'] + ['--seed', '1'], timeout=900)
         except subprocess.TimeoutExpired:
             return None
         vio = [r for r in recs if r.get('violation')]
@@ -137,7 +140,7 @@ def search_counterexample(here, repo, pid, obligation):
     return c
 
 def replay_case(here, repo, pid, case):
-    if case.get('engine') not in ('graph', 'pie', 'fs'): return True, 'no replay engine for this case'
+    if case.get('engine') not in ('graph', 'pie', 'fs', 'map'): return True, 'no replay engine for this case'
     binp, err = _build(here, repo)
     if binp is None: return True, 'replay binary does not build: ' + err
     if case['engine'] == 'graph':
